@@ -26,6 +26,10 @@ CHECKS = {
  "C06": dict(category="model_checking", technique="bounded-exhaustive enumeration of anchored / trailing-context rule sets (every form of 8 heads x 7 trails, alone, against every competitor in both orders, in '|' chains, against each other) x every input up to length L through yylex(), compared with the reference (competition by total length, yyleng in the set of valid splits, resumption after the head)",
    text="~25 000 rule sets per run in -Cem/-B/-I/-Cf/-CFe, reentrant, c99, yylineno, one-byte reads with 1-3 byte buffers, yysetbol and yyinput deviations: rule chosen, yyleng, yytext and the position where scanning resumes are compared at every action with the reference built from the ASTs of r and s; rule sets for which flex prints 'dangerous trailing context' (mapped back through rule line numbers) are excluded as the property says.",
    note="Ambiguous splits without the warning are accepted when valid; nullable heads loop by design and are compared up to the step horizon; the duplicated pre-action of '|' rules with trailing context is recognised and counted, not judged here.", design="2/C06"),
+
+ "C05": dict(category="model_checking", technique="exhaustive enumeration of start-condition declarations x rule-to-condition-list assignments x scope writings (activation), and deviation-bounded DFS over yybegin/push/pop/top/return histories from empty and pre-filled stacks, on the real scanner against a list model",
+   text="Activation: every %s/%x declaration of two conditions x every pair of the 9 condition lists (none, <*>, the 7 subsets of {INITIAL,A,B}) x prefix / scope / nested-scope / ^-anchored writings; each spec is scanned in each of its 3 conditions on every input of length <= 2 and the rule that fires is compared with the documented activation function. Stack: every sequence of yybegin/yy_push_state/yy_pop_state/yy_top_state/return within the bound (arguments exhaustive), in non-reentrant, reentrant and c99 scanners, from an empty stack and from stacks filled through the API before the first yylex() to 0,1,24,25,26,49,50,51,101 entries; yystart() and yy_top_state() are compared after every operation and a pop of an empty stack must reach the fatal-error hook.",
+   note="Nested scopes read as the union of the enclosing lists; quick tier samples about a third of the 1 300 activation specs by fixed strides, thorough runs all; conditions surviving restart/buffer switches/EOF are checked in C10/C11.", design="2/C05"),
 }
 
 NOT_YET = "check under construction in this round; will be claimed once it has run end-to-end on the unchanged tree"
